@@ -487,10 +487,12 @@ fn c18_env(rng: &mut Rng) -> Env {
                 _ => Some(rng.pick(&["/h", "/home/u", "/"]).to_string()),
             }
         } else {
-            match rng.weighted(&[4, 2, 5]) {
+            match rng.weighted(&[4, 2, 5, if *k == "XDG_CONFIG_HOME" || *k == "TMPDIR" { 0 } else { 1 }]) {
                 0 => None,
                 1 => Some(String::new()),
-                _ => Some(rng.pick(&dirs).to_string()),
+                2 => Some(rng.pick(&dirs).to_string()),
+                // a relative value is a value like any other: returned as it is
+                _ => Some(rng.pick(&["rel/data", "x"]).to_string()),
             }
         };
         if let Some(v) = v {
